@@ -80,11 +80,22 @@ type RPCCase struct {
 	Deny   bool   `json:"deny,omitempty"`   // reference scripts: the handler fails before touching the stream
 	Reply  string `json:"reply,omitempty"`  // reference scripts: the unary handler returns the replacement message
 	ICode  int    `json:"icode,omitempty"`  // status code returned by a denying / overriding interceptor (default 7)
-	Opts   Opts   `json:"opts"`
+	// Calls that end while (or before) the handler runs:
+	Timeout   string `json:"timeout,omitempty"`    // grpc-timeout header ("0n": expired on arrival)
+	WaitCtx   bool   `json:"wait_ctx,omitempty"`   // the handler, after its receives, waits for ctx.Done() and only then returns its own error / nil
+	CancelMid bool   `json:"cancel_mid,omitempty"` // the client cancels while the handler runs (the handler triggers it, then waits for ctx.Done())
+	PreCancel bool   `json:"pre_cancel,omitempty"` // the request arrives with an already cancelled context
+	Opts      Opts   `json:"opts"`
 }
 
 func (c *RPCCase) unary() bool   { return c.Method == "Echo" }
 func (c *RPCCase) proxied() bool { return strings.HasPrefix(c.Target, "proxy") }
+
+// ended: the call's context ends before the handler returns.
+func (c *RPCCase) ended() bool { return c.WaitCtx || c.CancelMid || c.PreCancel || c.Timeout != "" }
+
+// expired: the call's context has already ended when it is dispatched.
+func (c *RPCCase) expired() bool { return c.PreCancel || c.Timeout == "0n" }
 func (c *RPCCase) cstream() bool {
 	return c.Method == "CS" || c.Method == "Bidi"
 }
@@ -142,6 +153,7 @@ type trace struct{ n int }
 type rscn struct {
 	id     string
 	spec   *RPCCase
+	cancel context.CancelFunc // the client's cancel (CancelMid)
 	mu     sync.Mutex
 	events []revent
 	traces int
@@ -306,6 +318,25 @@ func (s *rpcSvc) noteCtx(sc *rscn, ctx context.Context) {
 	}
 }
 
+// awaitEnd implements WaitCtx / CancelMid: the handler stays in the call
+// until its context has ended (watchdog 15 s, logged).
+func (s *rpcSvc) awaitEnd(sc *rscn, ctx context.Context) {
+	c := sc.spec
+	if !c.WaitCtx && !c.CancelMid {
+		return
+	}
+	if c.CancelMid && sc.cancel != nil {
+		sc.add("h", "client-cancels", "", nil, 0, nil)
+		sc.cancel()
+	}
+	select {
+	case <-ctx.Done():
+		sc.add("h", "ctx-done", "", ctx.Err(), 0, nil)
+	case <-time.After(15 * time.Second):
+		sc.add("h", "ctx-not-done", "", nil, 0, nil)
+	}
+}
+
 func (s *rpcSvc) unary(ctx context.Context, md protoreflect.MethodDescriptor, dec func(interface{}) error, icpt grpc.UnaryServerInterceptor) (interface{}, error) {
 	sc := s.lookup(ctx)
 	if sc == nil {
@@ -323,6 +354,7 @@ func (s *rpcSvc) unary(ctx context.Context, md protoreflect.MethodDescriptor, de
 	h := func(ctx context.Context, req interface{}) (interface{}, error) {
 		sc.add("h", "enter", "", nil, 0, nil)
 		s.noteCtx(sc, ctx)
+		s.awaitEnd(sc, ctx)
 		if c.Fail || c.Deny {
 			err := c.err()
 			sc.add("h", "return", "", err, 0, nil)
@@ -385,6 +417,7 @@ func (s *rpcSvc) stream(md protoreflect.MethodDescriptor, ss grpc.ServerStream) 
 			sc.add("h", "recv-ok", "extra", nil, proto.Size(in), nil)
 		}
 	}
+	s.awaitEnd(sc, ctx)
 	for i, n := range c.Out {
 		if err := ss.SendMsg(chunkOfSize(n)); err != nil {
 			sc.add("h", "send-err", "", err, i, nil)
@@ -544,6 +577,9 @@ func protoDelimited(msgs [][]byte) []byte {
 
 func (s *rpcSvc) request(c *RPCCase, id string) (*http.Request, bool) {
 	hdr := http.Header{"X-Scn": {id}}
+	if c.Timeout != "" && !strings.HasPrefix(c.Proto, "http") {
+		hdr.Set("Grpc-Timeout", c.Timeout)
+	}
 	full := s.std.Full(c.Method)
 	var msgs [][]byte
 	for _, n := range c.In {
@@ -605,6 +641,10 @@ type outcome struct {
 	Panic      *mon.PanicInfo
 	Wedged     bool
 	Bodyless   bool
+	// grpc-status / grpc-message as the client gets them (gRPC, gRPC-web)
+	GOK   bool
+	GCode int
+	GMsg  string
 }
 
 func transcriptOf(c *RPCCase, r *wire.Resp) string {
@@ -639,10 +679,33 @@ func (s *rpcSvc) exec(c *RPCCase) (*outcome, error) {
 	s.scns.Store(sc.id, sc)
 	defer s.scns.Delete(sc.id)
 	req, bodyless := s.request(c, sc.id)
+	if c.CancelMid || c.PreCancel {
+		ctx, cancel := context.WithCancel(req.Context())
+		defer cancel()
+		sc.cancel = cancel
+		req = req.WithContext(ctx)
+		if c.PreCancel {
+			cancel()
+		}
+	}
 	resp := wire.Serve(mux, req)
 	out := &outcome{Events: sc.snapshot(), Panic: resp.Panic, Wedged: resp.Wedged, Bodyless: bodyless}
 	if !resp.Wedged {
 		out.Transcript = transcriptOf(c, resp)
+		if pc := c.protoClass(); pc == "grpc" || pc == "web" {
+			out.GCode, out.GMsg, _, out.GOK = resp.GRPCStatus()
+			if !out.GOK && pc == "web" {
+				wr := wire.DecodeWeb(resp.Body, c.Proto == "webtext")
+				if v := wr.Trailer["grpc-status"]; len(v) > 0 {
+					if _, err := fmt.Sscanf(v[0], "%d", &out.GCode); err == nil {
+						out.GOK = true
+						if m := wr.Trailer["grpc-message"]; len(m) > 0 {
+							out.GMsg = wire.DecodeGrpcMessage(m[0])
+						}
+					}
+				}
+			}
+		}
 	}
 	return out, nil
 }
@@ -694,8 +757,11 @@ func (s *rpcSvc) check(c *RPCCase, o *outcome) (vs []viol, obs map[string]int) {
 	obs["stream_interceptor_calls"] += nSI
 	uiOn := c.Opts.Unary != "" && c.Opts.Unary != "ctx"
 	siOn := c.Opts.Stream != "" && c.Opts.Stream != "ctx"
+	// A unary call that is already over when it is dispatched fails in the
+	// request decode step, in front of the interceptor (as in grpc-go).
+	decodeFailed := c.unary() && c.expired() && nUI == 0 && (pc == "grpc" || pc == "web")
 	if c.unary() {
-		if uiOn && nUI != 1 {
+		if uiOn && nUI != 1 && !decodeFailed {
 			add(fmt.Sprintf("%s:unary-interceptor-calls=%d:unary", tp, min(nUI, 2)), fmt.Sprintf("unary RPC %s passed through the unary interceptor %d times", full, nUI))
 		}
 		if nSI != 0 {
@@ -763,6 +829,36 @@ func (s *rpcSvc) check(c *RPCCase, o *outcome) (vs []viol, obs map[string]int) {
 			finalErr = hret.err
 		} else {
 			finalKnown = false // proxied back-end never reached
+		}
+	}
+
+	if c.ended() && c.proxied() && !((c.unary() && uiOn) || (!c.unary() && siOn)) {
+		// the forwarder's client library reports the end of the call itself;
+		// what larking's handler returned is not observable at the back-end
+		finalKnown = false
+	}
+	// a call that ended before the handler returned nil still fails (in
+	// larking's own send of the reply / status): no expectation from nil
+	lenient := c.ended() && finalErr == nil
+	if c.ended() && count(ev, "h", "ctx-not-done") > 0 {
+		obs["ended_call_handler_ctx_not_done"]++
+		finalKnown = false
+	}
+
+	// ---- what the interceptor / handler returned is what the client gets
+	if o.GOK && finalKnown && !lenient {
+		want := status.Convert(finalErr)
+		if finalErr == nil {
+			want = status.New(codes.OK, "")
+		}
+		if int(want.Code()) != o.GCode || want.Message() != o.GMsg {
+			cls := shape
+			if c.ended() {
+				cls = "after-call-ended:" + shape
+			}
+			add(tp+":client-status-differs-from-returned-error:"+cls, fmt.Sprintf("%s: the handler / interceptor chain returned %v but the client got grpc-status %d %q", full, finalErr, o.GCode, o.GMsg))
+		} else {
+			obs["client_status_equals_returned_error"]++
 		}
 	}
 
@@ -869,6 +965,10 @@ func (s *rpcSvc) check(c *RPCCase, o *outcome) (vs []viol, obs map[string]int) {
 			wantOut = 1
 		}
 	}
+	countOutKnown := !c.ended() // sends of a call that has ended fail inside larking
+	if c.proxied() && c.ended() {
+		countKnown = false
+	}
 	if c.proxied() && hret == nil && (!(uiOn || siOn) || (c.Target == "proxy-down" && !c.unary())) {
 		// the back-end was not reached: what larking's forwarder received
 		// before it failed is not observable from outside
@@ -890,7 +990,7 @@ func (s *rpcSvc) check(c *RPCCase, o *outcome) (vs []viol, obs map[string]int) {
 			}
 			add(fmt.Sprintf("%s:stats-inpayload-%s:%s", pc, dir, cls), fmt.Sprintf("%s: the handler received %d message(s) but the stats handler saw %d InPayload event(s) (trace %q)", full, wantIn, gotIn, seq))
 		}
-		if gotOut != wantOut {
+		if gotOut != wantOut && countOutKnown {
 			dir := "missing"
 			if gotOut > wantOut {
 				dir = "extra"
@@ -916,8 +1016,15 @@ func (s *rpcSvc) check(c *RPCCase, o *outcome) (vs []viol, obs map[string]int) {
 			}
 		}
 	}
+	// End and the client agree (whatever the error is)
+	if e := last(st, "st", "End"); e != nil && o.GOK {
+		es := status.Convert(e.err)
+		if int(es.Code()) != o.GCode || (e.err != nil && es.Message() != o.GMsg) {
+			add(pc+":stats-end-error-differs-from-client-status", fmt.Sprintf("%s: End.Error = %v but the client got grpc-status %d %q", full, e.err, o.GCode, o.GMsg))
+		}
+	}
 	// End carries the handler's error
-	if e := last(st, "st", "End"); e != nil && finalKnown {
+	if e := last(st, "st", "End"); e != nil && finalKnown && !lenient {
 		if !sameStatus(e.err, finalErr) {
 			cls := "mismatch"
 			switch {
@@ -1053,6 +1160,9 @@ func (g *c18run) group(base RPCCase, optsList []Opts) {
 		// io.EOF of its SendMsg instead of the back-end's status: C10's
 		// subject), so it is no reference for a denying stream interceptor.
 		comparable := !(racy || (c.proxied() && !c.unary() && !c.sstream() && o.Stream == "override"))
+		// proxied call that ends while running: whether the forwarder's client
+		// library or the back-end reports the end first is a race
+		endedProxied := c.proxied() && c.ended()
 		marker := "overridden by interceptor"
 		if o.Stream == "deny" || (c.unary() && o.Unary == "deny") {
 			marker = "denied by interceptor"
@@ -1083,7 +1193,10 @@ func (g *c18run) group(base RPCCase, optsList []Opts) {
 		plain := c
 		plain.Opts = Opts{}
 		deciding := ref.baseKey() != plain.baseKey()
-		if !comparable {
+		if endedProxied {
+			g.r.Count("outcomes_without_reference", 1)
+			results = append(results, res{o: o})
+		} else if !comparable {
 			g.r.Count("outcomes_without_reference", 1)
 			if !strings.Contains(out.Transcript, marker) {
 				results = append(results, res{o: o, changed: true, c: &c, out: out, what: fmt.Sprintf("got %s, which does not carry the interceptor's error", clip(out.Transcript))})
@@ -1097,8 +1210,15 @@ func (g *c18run) group(base RPCCase, optsList []Opts) {
 				g.r.Count("interceptor_decided_outcome", 1)
 			}
 		}
-		if len(vs) == 0 && out.Transcript == want && comparable {
-			g.r.Distinct(fmt.Sprintf("%s/%s/%s/%s/fail=%v/%s", c.Target, c.Proto, c.Method, c.sizeClass(), c.Fail, o.key()))
+		if len(vs) == 0 && endedProxied {
+			g.r.Distinct(fmt.Sprintf("%s/%s/%s/ended/%s", c.Target, c.Proto, c.Method, o.key()))
+		}
+		if len(vs) == 0 && out.Transcript == want && comparable && !endedProxied {
+			endKind := ""
+			if c.ended() {
+				endKind = fmt.Sprintf("/ended(timeout=%s,wait=%v,mid=%v,pre=%v)", c.Timeout, c.WaitCtx, c.CancelMid, c.PreCancel)
+			}
+			g.r.Distinct(fmt.Sprintf("%s/%s/%s/%s/fail=%v/%s%s", c.Target, c.Proto, c.Method, c.sizeClass(), c.Fail, o.key(), endKind))
 		}
 	}
 	for _, x := range results {
@@ -1313,6 +1433,44 @@ func RunC18(r *mon.Run) {
 						c.In = nil
 					}
 					jobs = append(jobs, job{c, downOpts})
+				}
+			}
+		}
+	}
+	// calls that end while, or before, the handler runs: the grpc-timeout
+	// expires / the client cancels during the handler, which then returns its
+	// own error or nil; calls that arrive expired or cancelled
+	endOpts := []Opts{{}, {Unary: "rec", Stream: "rec", Stats: true}, {Unary: "rec", Stream: "rec"}, {Stats: true}}
+	if r.Thorough() {
+		endOpts = combos
+	}
+	type endVar struct {
+		timeout              string
+		wait, mid, pre, fail bool
+	}
+	endVars := []endVar{
+		{"10m", true, false, false, true}, {"10m", true, false, false, false},
+		{"", false, true, false, true}, {"", false, true, false, false},
+		{"0n", false, false, false, true}, {"", false, false, true, true}, {"", false, false, true, false},
+	}
+	for _, target := range []string{"local", "proxy"} {
+		for _, method := range methods {
+			endProtos := []string{"grpc", "web", "http-json"}
+			if r.Thorough() {
+				endProtos = []string{"grpc", "web", "webtext", "http-json", "http-proto"}
+			}
+			for _, p := range endProtos {
+				for _, v := range endVars {
+					if strings.HasPrefix(p, "http") && v.timeout != "" {
+						continue // grpc-timeout is a gRPC header
+					}
+					in, _ := shapeIO(method, 5, 2, 0)
+					c := RPCCase{Part: "rpc", Target: target, Proto: p, Method: method, In: in, Out: nil,
+						Timeout: v.timeout, WaitCtx: v.wait, CancelMid: v.mid, PreCancel: v.pre, Fail: v.fail, Code: int(codes.Aborted), Msg: "rolled back"}
+					if method == "Echo" {
+						c.Out = []int{5}
+					}
+					jobs = append(jobs, job{c, endOpts})
 				}
 			}
 		}
